@@ -1202,7 +1202,8 @@ def _lit_const(e: ast.AST) -> bool:
     if isinstance(e, ast.Constant):
         return isinstance(e.value, (int, float, str)) and not isinstance(e.value, bool)
     if isinstance(e, (ast.Tuple, ast.List)):
-        return bool(e.elts) and all(_lit_const(x) for x in e.elts)
+        # (None / True / False may be members of a literal sequence: `(None, "none")`)
+        return bool(e.elts) and all(_lit_const(x) or (isinstance(x, ast.Constant) and (x.value is None or isinstance(x.value, bool))) for x in e.elts)
     if isinstance(e, ast.UnaryOp) and isinstance(e.op, ast.USub):
         return _lit_const(e.operand)
     if isinstance(e, ast.BinOp) and isinstance(e.op, (ast.Add, ast.Sub, ast.Mult, ast.Div, ast.Pow, ast.FloorDiv)):
@@ -3052,6 +3053,21 @@ def drop_observability(trees: Dict[str, ast.Module]) -> int:
                 if not keep and fld == "body":
                     keep = [ast.copy_location(ast.Pass(), block[0])]
                 block[:] = keep
+        # `try: body except E: raise` (handlers that only re-raise, e.g. after a log call) is the body
+        for node in ast.walk(tree):
+            for fld in ("body", "orelse", "finalbody"):
+                block = getattr(node, fld, None)
+                if not (isinstance(block, list) and block and isinstance(block[0], ast.stmt)):
+                    continue
+                out = []
+                for st in block:
+                    if isinstance(st, ast.Try) and not st.orelse and not st.finalbody and st.handlers \
+                            and all(len(h.body) == 1 and isinstance(h.body[0], ast.Raise) and h.body[0].exc is None for h in st.handlers):
+                        out.extend(st.body)
+                        n += 1
+                    else:
+                        out.append(st)
+                block[:] = out
         for fn in [x for x in ast.walk(tree) if isinstance(x, (ast.FunctionDef, ast.AsyncFunctionDef))]:
             for lp in [x for x in ast.walk(fn) if isinstance(x, ast.For)]:
                 if isinstance(lp.target, ast.Tuple) and len(lp.target.elts) == 2 and all(isinstance(e, ast.Name) for e in lp.target.elts) \
